@@ -895,6 +895,23 @@ reg(Prop("C05", "Pseudo-legality test accepts exactly the moves the generator em
          design_ref="5/C05"))
 
 
+def _c13_attach(w):
+    """Not a classifier of known findings (always None): copies what the worker process printed when it
+    died on this case (panic text / race report, written by harness/streams/c13.go to
+    build/c13-crash-N.log: description, input, blank line, stderr) into the witness, so that it lands
+    in the replay file."""
+    import glob
+    for fn in sorted(glob.glob(os.path.join(V.BUILD, "c13-crash-*.log"))):
+        try:
+            parts = open(fn, errors="replace").read().split("\n", 3)
+        except OSError:
+            continue
+        if len(parts) >= 4 and parts[1].split() == w.get("input", "").split():
+            w["worker_stderr"] = parts[3][:6000]
+            break
+    return None
+
+
 reg(Prop("C13", "UCI driver answers every request exactly once under any command timing", "Properties/C13.v",
          [StreamCfg("c13", 2000, 30000, judge="judge_c13", accept="accepts_c13", model=False, race=True,
                     rule="grammar-generated conforming scripts (uci, isready, ucinewgame, setoption, position, go "
@@ -903,7 +920,11 @@ reg(Prop("C13", "UCI driver answers every request exactly once under any command
                          "search duration d; 35% back-to-back scripts: searches that end at once, next line sent the moment "
                          "bestmove is seen; 10% congested-output scripts: slow consumer of stdout + bursts of mock info lines "
                          "of 20..1200 bytes + isready bursts; 15% of the grammar scripts with a slow consumer, 30% of their "
-                         "mock searches with long info lines) "
+                         "mock searches with long info lines; 4 per 1000 (thorough 10) ponder-left-alone scripts: Ponder on, "
+                         "near-final root (pawnless KvK/KRvKR/KBNvK/KQvK with halfmove clock 88..100, repetition, mate, "
+                         "stalemate), go ponder with the real search, 100..400 ms of silence, then ponderhit/stop/isready/"
+                         "quit/EOF; 5 per 1000 ponder-node-limit scripts: go ponder nodes N with the real search on an "
+                         "ordinary root, then stop/quit/EOF) "
                          "x blocking mock search or real search (25% of the grammar scripts), real uci.Driver over OS pipes "
                          "in a -race worker process; non-trivial = a command or end of input races with a search; distinct by "
                          "(script, delays)")],
@@ -920,7 +941,7 @@ reg(Prop("C13", "UCI driver answers every request exactly once under any command
                       "a search that does not end on its own and has no armed timer gets stop (or ponderhit where that arms "
                       "the timer / releases the mock) before the GUI waits for its bestmove; quit only as the last line",
                       "the search terminates once stop is closed and prints finitely many info lines"],
-         design_ref="5/C13"))
+         classify=_c13_attach, design_ref="5/C13"))
 
 
 # ------------------------------------------------------------------------------------------------
